@@ -111,7 +111,8 @@ def pit(obs, ens, random=False, cst=0.3, kind="rank", censor=0.):
 
     # Check sudo pits
     is_sudo = np.zeros(nforc).astype(bool)
-    idx = (obs < censor+EPS) & (np.sum(ens < censor + EPS, axis=1) > 0)
+    # (<= and not <: EPS is absorbed when added to a large threshold)
+    idx = (obs <= censor+EPS) & (np.sum(ens <= censor + EPS, axis=1) > 0)
     is_sudo[idx] = True
 
     # Compute pits
